@@ -125,3 +125,19 @@ impl<T, U: ArraySize> Array<T, U> {
     #[verifier::external_body]
     pub fn as_slice(&self) -> (o: &[T]) ensures o@ == self@ { unimplemented!() }
 }
+
+// `<&Array<T, N>>::try_from(slice)` is renamed token-wise to `shim_try_from` (same reason as shim_try_into)
+pub trait ShimTryFrom<S>: Sized {
+    type Error: core::fmt::Debug;
+    spec fn from_ok(s: S) -> bool;
+    spec fn from_eq(s: S, u: Self) -> bool;
+    fn shim_try_from(s: S) -> (r: Result<Self, Self::Error>)
+        ensures r is Ok <==> Self::from_ok(s), r is Ok ==> Self::from_eq(s, r->Ok_0);
+}
+impl<'a, T, U: ArraySize> ShimTryFrom<&'a [T]> for &'a Array<T, U> {
+    type Error = TryFromSliceError;
+    #[verifier::external_body]
+    fn shim_try_from(s: &'a [T]) -> (r: Result<&'a Array<T, U>, TryFromSliceError>) { unimplemented!() }
+    open spec fn from_ok(s: &'a [T]) -> bool { s@.len() == U::USIZE }
+    open spec fn from_eq(s: &'a [T], u: &'a Array<T, U>) -> bool { u@ == s@ }
+}
